@@ -42,7 +42,7 @@ def one_path(draw, mids_pool, base, scale):
 
 @st.composite
 def path_list(draw):
-    mids_pool = draw(st.sampled_from([['a', 'b', 'c'], ['a', 'b', 'c'], [-1, -2, 3], [0, -1, -2]]))
+    mids_pool = draw(st.sampled_from([['a', 'b', 'c'], ['a', 'b', 'c'], [-1, -2, 3], [0, -1, -2], [1, '1', 2], ['7', 7, 'a']]))
     base = draw(st.sampled_from([0, 0, -2, -5, -1, 10 ** 9]))
     scale = draw(st.sampled_from([1, 1, 1, 10 ** 9]))
     return draw(st.lists(one_path(mids_pool, base, scale), min_size=1, max_size=8))
@@ -63,6 +63,7 @@ POOL2 = [
     [['S', 'T', -1]], [['S', 'T', -2]], [['S', -1, -3], [-1, 'T', -1]], [['S', -2, -3], [-2, 'T', -1]], [['S', -1, -3], [-1, 'T', -2]],
     [['S', 'a', 0], ['a', 'T', 2000000000]], [['S', 'b', 0], ['b', 'T', 2000000001]], [['S', 'a', 0], ['a', 'b', 5], ['b', 'T', 2000000000]],
     [['S', 'a', -2], ['a', 'T', -1]], [['S', 'a', -1], ['a', 'T', 0]],
+    [['S', 1, -3], [1, 'T', -1]], [['S', '1', -3], ['1', 'T', -1]],
 ]
 
 
@@ -75,7 +76,7 @@ def exhaustive(tier):
             for combo in itertools.product(range(len(POOL2)), repeat=k):      # ordered: the input order matters for tie handling
                 yield {'paths': [POOL2[i] for i in combo], 'as_list': (sum(combo) % 2 == 1)}
     return {'cases': cases(), 'bound': 'every multiset of 1-4 paths from a pool of 12 paths (1819 lists) and every ordered list of 1-3 paths from a second '
-            'pool of 10 paths with times/ids -1 and -2 and durations of 2e9 +- 1 (1110 lists)'}
+            'pool of 12 paths with times/ids -1 and -2, ids 1 and "1", and durations of 2e9 +- 1 (1884 lists)'}
 
 
 def canon(p):
